@@ -188,7 +188,11 @@ func forIndexImages(r *ev.Run, fn func(si *ShapeImage)) {
 	for _, b := range allBounds(r) {
 		forIndexShapes(r, b, fn)
 	}
-	// T1 on varied rowid sets (all of T1's indexes at default shape) + T3; page size family
+	forIndexFamily(r, fn)
+}
+
+// forIndexFamily: T1 on varied rowid sets (all of T1's indexes at default shape) + T2..T5; page size family
+func forIndexFamily(r *ev.Run, fn func(si *ShapeImage)) {
 	sizes := []int{512, 1024, 4096, 65536}
 	if r.Thorough() {
 		sizes = PageSizes
